@@ -403,6 +403,10 @@ impl BlockData {
             .clone()
             .expect("first slice contains a parent, validated in `try_reconstruct_slice`");
         let mut parent_switched = false;
+        if parent.0 >= slot {
+            warn!("parent of block in slot {slot} is not in an earlier slot");
+            return ReconstructBlockResult::Error;
+        }
 
         let mut transactions = vec![];
         for (ind, slice) in &self.slices {
@@ -416,6 +420,10 @@ impl BlockData {
                 }
                 if parent_switched {
                     warn!("parent switched more than once");
+                    return ReconstructBlockResult::Error;
+                }
+                if new_parent.0 >= slot {
+                    warn!("parent of block in slot {slot} switched to a slot that is not earlier");
                     return ReconstructBlockResult::Error;
                 }
                 parent_switched = true;
